@@ -1295,6 +1295,16 @@ impl<'a> ReservedSession<'a> {
     pub fn complete(&mut self) {
         self.complete = true;
     }
+
+    /// Whether the reserved slot is still in the session table.
+    ///
+    /// It is not if its fabric was removed while the handshake was in flight:
+    /// `Sessions::remove_for_fabric` does not spare reserved slots. A handshake that
+    /// finds its slot gone must not leave anything else behind for that fabric either
+    /// (e.g. a session resumption record).
+    pub(crate) fn is_in_table(&self, state: &mut MatterState) -> bool {
+        state.sessions.get(self.id).is_some()
+    }
 }
 
 /// Verification hook: the unique id of the reserved slot.
